@@ -151,16 +151,17 @@ CHECKS["C20"] = ("schedule exploration driven by generated inputs: a harness-own
 GRIDS = {
     "C01": "digit-count constraints x every spelling of a number, and contains-only rules inside unions",
     "C02": "the int range grid and const/enum on rules without a source type",
-    "C03": "sized containers x colliding members, lax digit constraints x carrying numbers, unions x re-interpretable inputs x every spelling of the flags",
+    "C03": "sized containers x colliding members, lax digit constraints x carrying numbers, lax unique_items x duplicate kinds, unions (plain and constrained arguments) x re-interpretable inputs x every spelling of the flags",
     "C04": "every builtin target x extreme scalars, and awkward-but-legal declarations x inputs aimed at them",
-    "C09": "unions that only accept in their lenient stage, followed by other arguments",
+    "C06": "one field reachable under two names: declared spelling x where case-insensitivity is declared x spelling and order of the two keys x conflicting / equal-but-distinct values",
+    "C09": "unions that only accept in their lenient stage, followed by other arguments; data classes restricted by options of their own beside every partner",
     "C12": "the (source, target) pair table",
-    "C15": "every constraint keyword and keyword combination x every subschema position x every combinator",
+    "C15": "every constraint keyword and keyword combination x every subschema position x every combinator, every instance kind x every pair of scalar types in anyOf / oneOf",
     "C16": "all short register/use histories of two shapes",
-    "C17": "same-named classes in two modules x annotation styles x orders, subclasses of classes with pending references, local declarations, shared reference names",
+    "C17": "same-named classes in two modules x annotation styles x orders, subclasses of classes with pending references, local declarations (result-only functions and whole-string generator annotations included), shared reference names, combinators over two later classes given mappings and instances",
     "C18": "the shape x position x depth x max_depth grid, cyclic and DAG-shaped inputs",
-    "C19": "mutable-default forms, text inputs into unparametrised slots, and parse orders across fresh interpreters",
-    "C20": "all one-preemption schedules and the two-preemption schedules around the serialisation gate",
+    "C19": "mutable-default forms (named tuples and keeping factories included), text inputs into unparametrised slots, one function declared twice under every ordered pair of option sets, and parse orders across fresh interpreters",
+    "C20": "all one-preemption schedules (first calls, and two threads decorating one function) and the two-preemption schedules around the serialisation gate",
 }
 
 NOT_YET = "check not built yet in this round (planned, see DESIGN.md section 3)"
